@@ -3,6 +3,7 @@ package c02
 import (
 	"bytes"
 	"fmt"
+	"net"
 	"os"
 	"strings"
 	"testing"
@@ -31,8 +32,9 @@ type caseA struct {
 	Body       string   `json:"body"`    // default, none, big, chunked
 	Defect     string   `json:"defect"`
 	Arg        int      `json:"arg"`
-	Short      bool     `json:"short"`          // declare the body length but send only half of it
-	Proc       bool     `json:"proc,omitempty"` // send to a real gateway process (long-lived fixture, no valid twin is sent)
+	Short      bool     `json:"short"`                // declare the body length but send only half of it
+	Proc       bool     `json:"proc,omitempty"`       // send to a real gateway process (long-lived fixture, no valid twin is sent)
+	AdminPort  bool     `json:"admin_port,omitempty"` // (real process only) the gateway serves the admin API on a listener of its own, admin requests go there
 	// free-form additions so that routes missing from the catalogue are reached too
 	ExtraQuery []s3c.KV `json:"extra_query,omitempty"`
 	Method     string   `json:"method,omitempty"` // overrides the catalogue method
@@ -253,7 +255,11 @@ func damage(r *s3c.Req, c caseA, now time.Time) {
 		case "sig-zero":
 			qset("X-Amz-Signature", strings.Repeat("0", 64))
 		case "alter-query":
-			r.Query = append(r.Query, s3c.KV{K: "versionId", V: "x"})
+			if names := []string{"versionId", "tagging", "acl", "uploads", "versions", "policy", "legal-hold", "retention", "delete"}; c.Arg%len(names) == 0 {
+				r.Query = append(r.Query, s3c.KV{K: "versionId", V: "x"})
+			} else {
+				r.Query = append(r.Query, s3c.KV{K: names[c.Arg%len(names)], V: ""})
+			}
 		case "alter-path":
 			r.Path += "x"
 		case "alter-path-reencode":
@@ -377,7 +383,12 @@ func damage(r *s3c.Req, c caseA, now time.Time) {
 			r.Header = append(r.Header, s3c.KV{K: name, V: alt})
 		}
 	case "alter-query":
-		r.Query = append(r.Query, s3c.KV{K: []string{"versionId", "max-keys", "prefix", "x"}[c.Arg%4], V: "1"})
+		// a parameter with a value, or a bare sub-resource flag (it makes the request another operation)
+		if names := []string{"versionId", "max-keys", "prefix", "x", "tagging", "acl", "uploads", "versions", "policy", "legal-hold", "retention", "delete"}; c.Arg%len(names) < 4 {
+			r.Query = append(r.Query, s3c.KV{K: names[c.Arg%len(names)], V: "1"})
+		} else {
+			r.Query = append(r.Query, s3c.KV{K: names[c.Arg%len(names)], V: ""})
+		}
 	case "alter-query-raw":
 		// a pair added after signing, written so that a query parser may drop it (a raw ';', a percent sign that begins
 		// no escape) while the router still sees it; several of them name a sub-resource, i.e. another operation
@@ -593,6 +604,7 @@ type world struct {
 	fx   *cat.Fixture
 	proc *gw.Proc
 	t    s3c.Transport
+	adm  *s3c.TCP // the admin listener of a real process started with --admin-port
 }
 
 func newWorld(versioning, sidecar bool) (*world, error) {
@@ -632,8 +644,8 @@ var procWorlds = map[string]*world{}
 
 // procWorld returns the long-lived real-process gateway for a configuration. Only damaged
 // requests are ever sent to it, so its fixture stays pristine unless the property fails.
-func procWorld(versioning, sidecar bool) (*world, error) {
-	key := fmt.Sprint(versioning, sidecar)
+func procWorld(versioning, sidecar, adminPort bool) (*world, error) {
+	key := fmt.Sprint(versioning, sidecar, adminPort)
 	if w, ok := procWorlds[key]; ok && w.proc.Alive() {
 		return w, nil
 	}
@@ -641,16 +653,32 @@ func procWorld(versioning, sidecar bool) (*world, error) {
 	if err != nil {
 		return nil, err
 	}
-	p, err := gw.StartProc(gw.Config{SB: sb, Versioning: versioning, Sidecar: sidecar})
+	cfg := gw.Config{SB: sb, Versioning: versioning, Sidecar: sidecar}
+	var adm *s3c.TCP
+	if adminPort {
+		l, err := net.Listen("tcp", "127.0.0.1:0")
+		if err != nil {
+			return nil, err
+		}
+		addr := l.Addr().String()
+		l.Close()
+		cfg.ExtraArgs = []string{"--admin-port", addr}
+		adm = &s3c.TCP{Addr: addr}
+	}
+	p, err := gw.StartProc(cfg)
 	if err != nil {
 		return nil, err
 	}
+	if adm != nil {
+		cat.AdminT = adm
+	}
 	fx, err := cat.Build(sb, p, versioning)
+	cat.AdminT = nil
 	if err != nil {
 		p.Kill()
 		return nil, err
 	}
-	w := &world{sb: sb, fx: fx, proc: p, t: p}
+	w := &world{sb: sb, fx: fx, proc: p, t: p, adm: adm}
 	procWorlds[key] = w
 	return w, nil
 }
@@ -658,7 +686,7 @@ func procWorld(versioning, sidecar bool) (*world, error) {
 func execA(c caseA) (v verdict, err error) {
 	var w *world
 	if c.Proc {
-		w, err = procWorld(c.Versioning, c.Sidecar)
+		w, err = procWorld(c.Versioning, c.Sidecar, c.AdminPort)
 	} else {
 		w, err = newWorld(c.Versioning, c.Sidecar)
 	}
@@ -741,7 +769,11 @@ func execA(c caseA) (v verdict, err error) {
 		}
 	}
 	before := gw.Snap(w.fx.Dirs(), nil)
-	resp, terr := s3c.Do(w.t, bad)
+	target := w.t
+	if w.adm != nil && entry.Level == "admin" {
+		target = w.adm
+	}
+	resp, terr := s3c.Do(target, bad)
 	after := gw.Snap(w.fx.Dirs(), nil)
 	shape := "/b/k"
 	if entry.Level == "bucket" {
@@ -777,7 +809,7 @@ func execA(c caseA) (v verdict, err error) {
 	}
 	if c.Proc {
 		if !w.proc.Alive() {
-			delete(procWorlds, fmt.Sprint(c.Versioning, c.Sidecar))
+			delete(procWorlds, fmt.Sprint(c.Versioning, c.Sidecar, c.AdminPort))
 		}
 		// no twin on the long-lived fixture; the catalogue says whether the route mutates
 		v.TwinOK, v.TwinMutate = entry.Mutates, entry.Mutates
@@ -824,6 +856,22 @@ func genCase(t *rapid.T) caseA {
 	if rapid.IntRange(0, 9).Draw(t, "free") == 0 {
 		c.ExtraQuery = []s3c.KV{{K: rapid.SampledFrom([]string{"acl", "tagging", "versioning", "policy", "object-lock", "ownershipControls", "cors", "uploads", "uploadId", "partNumber", "versions", "versionId", "retention", "legal-hold", "attributes", "restore", "delete", "list-type", "x-id"}).Draw(t, "xq"), V: rapid.SampledFrom([]string{"", "1", "2"}).Draw(t, "xqv")}}
 	}
+	if c.AdminPort = rapid.IntRange(0, 3).Draw(t, "admin_port") == 0; c.AdminPort {
+		// (only the real process has such a listener) mostly admin calls then, often with a scope defect: the admin
+		// listener has its own copy of the authentication wiring
+		var adminOps []string
+		for _, n := range cat.Names() {
+			if strings.HasPrefix(n, "Admin") {
+				adminOps = append(adminOps, n)
+			}
+		}
+		if len(adminOps) > 0 && rapid.IntRange(0, 2).Draw(t, "admin_op") > 0 {
+			c.Spec.Op = rapid.SampledFrom(adminOps).Draw(t, "admin_op_name")
+			if !c.Presign && rapid.IntRange(0, 2).Draw(t, "admin_scope") == 0 {
+				c.Defect = rapid.SampledFrom([]string{"scope-region", "scope-service", "scope-date", "scope-term", "date-skew"}).Draw(t, "admin_defect")
+			}
+		}
+	}
 	if rapid.IntRange(0, 14).Draw(t, "free_method") == 0 {
 		c.Method = rapid.SampledFrom([]string{"GET", "PUT", "POST", "DELETE", "HEAD", "PATCH", "OPTIONS"}).Draw(t, "method")
 	}
@@ -850,6 +898,7 @@ func testC02(t *testing.T, proc bool) {
 	ev.Check(t, "C02A", func(t *rapid.T) {
 		c := genCase(t)
 		c.Proc = proc
+		c.AdminPort = c.AdminPort && proc
 		ev.Trace("C02A", c)
 		v, err := execA(c)
 		if v.Discarded != "" {
@@ -861,6 +910,9 @@ func testC02(t *testing.T, proc bool) {
 			mode = "presign"
 		}
 		cls := []string{"defect:" + mode + ":" + c.Defect, "op:" + c.Spec.Op, "body:" + c.Body}
+		if c.AdminPort {
+			cls = append(cls, "engine:proc-admin-port")
+		}
 		if proc {
 			cls = append(cls, "engine:proc")
 		} else {
